@@ -901,8 +901,11 @@ func (o *Map) UnmarshalBinary(data []byte) error {
 	strBuf := bytes.NewBuffer(nil)
 	var vi varintConv
 	vi.reader = rd
-	m := *o
+	if *o == nil {
+		*o = Map{}
+	}
 
+	m := *o
 	for rd.Len() > 0 {
 		value, err := vi.read()
 		if err != nil {
